@@ -23,6 +23,10 @@ class BeyondBound(BaseException):
     """Path needs more than the stated bound (unrolling, size); it is cut."""
 
 
+class SplitHere(BaseException):
+    """pre-pass of a split job: the path reached the split depth"""
+
+
 class NotModelled(BaseException):
     """The shim cannot execute an operation: the check is inconclusive."""
 
@@ -466,6 +470,8 @@ class Engine(object):
                           obligations=0, discharged=0, failed=0,
                           inconclusive=0, budget_exhausted=0)
         self.findings = []
+        self.split_depth = None
+        self.split_prefixes = []
         self._finding_keys = {}
         self.notes = []            # NotModelled / inconclusive messages
         self.samples = []          # a few explored paths, for evidence
@@ -597,6 +603,9 @@ class Engine(object):
         if i >= self.max_decisions:
             raise BeyondBound('decision budget')
         new_model = None
+        if i >= len(self.prefix) and self.split_depth is not None and \
+                i >= self.split_depth:
+            raise SplitHere()
         if i < len(self.prefix):
             v = self.prefix[i]
             if self._side(t) is not v:
@@ -900,10 +909,13 @@ class Engine(object):
         lab[1] += 1
 
     # -- exploration
-    def explore(self, fn, stop_on_first=False):
-        """Run fn(engine) once per feasible path (depth first)."""
+    def explore(self, fn, stop_on_first=False, root=None, split_depth=None):
+        """Run fn(engine) once per feasible path (depth first).  root: only
+        paths below this decision prefix; split_depth: stop at that many
+        decisions and record the prefix (pre-pass of a split job)."""
         global ENG
-        work = [[]]
+        work = [list(root) if root else []]
+        self.split_depth = split_depth
         rnd = random.Random(self.seed)
         while work:
             if self.stats['paths'] >= self.max_paths:
@@ -933,6 +945,9 @@ class Engine(object):
                 _sys.setprofile(_tracer)
             try:
                 fn(self)
+            except SplitHere:
+                status = 'split'
+                self.split_prefixes.append(list(self.trace))
             except PathAbort:
                 status = 'aborted'
             except BeyondBound as e:
@@ -945,7 +960,10 @@ class Engine(object):
                 ENG = None
                 if prof:
                     _sys.setprofile(None)
-            self.stats[status] += 1
+            if status == 'split':
+                self.stats['paths'] -= 1
+            else:
+                self.stats[status] += 1
             if self.uncertain:
                 self.notes.append('INCONCLUSIVE: unknown during a decision')
                 self.stats['inconclusive'] += 1
